@@ -55,6 +55,25 @@ def prepare(cfg, transport='udp'):
     return r
 
 
+SETTERS = ['set:dod=99', 'set:mode=OFF_GRID', 'set:export=1', 'set:mode=ECO_CHARGE', 'set:mode=GENERAL', 'set:write_export=3']
+
+
+def do_set(r, op):
+    """legal setter calls (history letters: what they transmit is not judged here)"""
+    inv = r.inv
+    if op == 'set:dod=99':
+        return r.call(inv.set_ongrid_battery_dod, 99)
+    if op == 'set:mode=OFF_GRID':
+        return r.call(inv.set_operation_mode, OM.OFF_GRID)
+    if op == 'set:mode=GENERAL':
+        return r.call(inv.set_operation_mode, OM.GENERAL)
+    if op == 'set:mode=ECO_CHARGE':
+        return r.call(inv.set_operation_mode, OM.ECO_CHARGE, 1, 1)
+    if op == 'set:export=1':
+        return r.call(inv.set_grid_export_limit, 1)
+    return r.call(inv.write_setting, 'grid_export_limit', 3)
+
+
 def do_read(r, op):
     inv = r.inv
     if op.startswith('read_sensor:'):
@@ -77,7 +96,8 @@ def written(dev):
 def inv_state(r):
     inv = r.inv
     return h((tuple(sorted((k, v) for k, v in vars(inv).items() if k.startswith('_has'))),
-              tuple(sorted(inv._settings)), len(inv.sensors()), inv.serial_number))
+              tuple(sorted(inv._settings)), len(inv.sensors()), inv.serial_number,
+              tuple(str(x) for x in getattr(r.dev, 'writes', [])[-6:])))   # what was written so far is part of the state
 
 
 def job_reads(j):
@@ -91,13 +111,19 @@ def job_reads(j):
     while frontier:
         hist = frontier.popleft()
         r = prepare(cfg, transport)
+        w = []
         for op in hist:
+            if op.startswith('set:'):
+                do_set(r, op)
+                continue
+            l0 = len(r.dev.log)
             res = do_read(r, op)
             oc[(op.split(':')[0], res[0], res[1] if res[0] == 'exc' else '')] = 1
+            w += [q for q in r.dev.log[l0:] if q.get('fn') not in (3, 'read')]    # attributed to this monitoring call
         n += 1
-        w = written(r.dev)
         if w:
-            key = f"read-only/{cfg['family']}/{hist[-1].split(':')[0]}"
+            key = f"read-only/{cfg['family']}/{[o for o in hist if not o.startswith('set:')][-1].split(':')[0]}" + \
+                ('/after-setter' if any(o.startswith('set:') for o in hist) else '')
             out.setdefault(key, []).append(dict(key=key, clause='monitoring calls transmit only read requests',
                                                 replay=dict(part='reads', cfg=cfg, history=hist, transport=transport),
                                                 detail=dict(history=hist, write_seen=str(w[0])[:100])))
@@ -111,7 +137,7 @@ def job_reads(j):
         seen.add(st)
         if len(hist) >= depth:
             continue
-        for op in READ_OPS:
+        for op in READ_OPS + (SETTERS if len(hist) < depth - 1 else []):
             frontier.append(hist + [op])
             edges += 1
     res = []
@@ -276,8 +302,15 @@ def replay(r):
         cfg['firmware'] = bytes.fromhex(cfg['firmware']['hex'])
     if r['part'] == 'reads':
         rg = prepare(cfg, r['transport'])
-        outs = [str(do_read(rg, op))[:80] for op in r['history']]
-        w = written(rg.dev)
+        outs = []
+        w = []
+        for op in r['history']:
+            if op.startswith('set:'):
+                do_set(rg, op)
+                continue
+            l0 = len(rg.dev.log)
+            outs.append(str(do_read(rg, op))[:80])
+            w += [q for q in rg.dev.log[l0:] if q.get('fn') not in (3, 'read')]
         return dict(outcomes=outs, violations=[str(x) for x in w])
     if r['part'] == 'entry':
         w, res = run_entry(r['kind'], cfg)
